@@ -37,6 +37,11 @@ def run(ctx):
     from .. import simrules as _S
     _S.shared_state(ctx, None, 'R7.8')
     r71_sources(ctx)
+    # the seeds of a replication depend on nothing but stream name, original seed / configured list and replication number -- in particular
+    # not on how the stream objects were used earlier in the process (shared rules with C13)
+    from . import c13
+    for c_ in [c for c in prog.subclasses('StreamUpdater') if 'update_seed' in prog.classes[c].methods]:
+        c13.check_updater(ctx, c_)
     ctx.rule('R7.2', 'listeners are kept in lists, appended once, and notified by iterating (a copy of) the list in order')
     c08.r81(ctx)
     c08.r82(ctx)
